@@ -165,8 +165,11 @@ package sample
 // produced for it (JSON: float64; msgpack: int64 / uint64 / float32 / float64): every number reads as the plain
 // decimal text of its value.
 //@ spec keyText(v any) string := ite(isString(v), anyString(v), strconv.FormatFloat(numOf(v), 'f', -1, 64))
+// offeredN(d): how many values have been offered to the collector of distinct values (call log)
+//@ ghost offeredN(ref) int
 //@ contract sample.(*distinctValue).AddAsString props C11,C09
 //@   arith math
+//@   ghostupdate[offered@C11] offeredN(d) :: offeredN(d) == old(offeredN(d)) + 1
 //@   requires d != nil && 0 <= fieldIdx && fieldIdx < len(d.values)
 //@   requires[slots-consistent] forall i int :: 0 <= i && i < len(d.values) ==> slotsConsistent(d.values[i])
 // strings and numbers have a modelled text form (integers up to 2^53 in magnitude are the ones a float64 carries
@@ -223,6 +226,21 @@ package sample
 //@   requires[slots-consistent] forall q int :: 0 <= q && q < len(d.distinctValue.values) ==> slotsConsistent(d.distinctValue.values[q])
 //@   ensures[each-distinct-value-is-counted] (forall a int, b int :: 0 <= a && a < b && b < len(values) ==> values[a] < values[b]) ==> fieldCount == old(fieldCount) + len(values)
 //@   loop 1 invariant[counted-so-far] (forall a int, b int :: 0 <= a && a < b && b < len(values) ==> values[a] < values[b]) ==> fieldCount == old(fieldCount) + iter && (iter > 0 ==> prevStr == values[iter - 1])
+
+// One span's share of one key field: the field's value on that span is offered to the collector of distinct values
+// exactly when the field is PRESENT on the span - whatever the value, an explicit null included - and the cap on
+// distinct values has not been reached; a span without the field contributes nothing.
+//@ fragment sample.(*traceKey).build loop 2 body props C11 havocheap
+//@   arith math
+//@   assert only none
+//@   requires d != nil && d.distinctValue != nil && span != nil && 0 <= i && i < len(d.distinctValue.values)
+//@   requires[slots-consistent] forall q int :: 0 <= q && q < len(d.distinctValue.values) ==> slotsConsistent(d.distinctValue.values[q])
+//@   let dv = d.distinctValue
+//@   let present = span.Data.Exists(field)
+//@   let room = d.distinctValue.totalUniqueCount < maxKeyLength
+//@   ensures[a-present-field-is-offered-once] present && room ==> offeredN(dv) == old(offeredN(dv)) + 1
+//@   ensures[an-absent-field-offers-nothing] !present ==> offeredN(dv) == old(offeredN(dv))
+//@   modifies all(offeredN)
 
 // ---- C08: the rules sampler applies the FIRST rule, in configuration order, that matches the trace.
 // Whether one rule matches is decided by ruleMatchesTrace / ruleMatchesSpanInTrace (by scope); here they are
